@@ -315,3 +315,58 @@ Proof.
         destruct (removed_keys_lemma nb fl d u (set key v k)) as [_ ->]. reflexivity.
     + rewrite !precedence_lemma by auto. apply P; auto.
 Qed.
+
+(* ---- set_user_pf_options ---- *)
+Lemma set_user_get user reset kw key : nodup_keys kw = true ->
+  get key (set_user user reset kw) = first_some (get key kw) (if reset then None else get key user).
+Proof.
+  intros H. unfold set_user. rewrite get_merge by exact H. destruct reset; reflexivity.
+Qed.
+
+Lemma merge_nodup (a b : opts) : nodup_keys a = true -> nodup_keys (merge a b) = true.
+Proof.
+  unfold merge. revert a. induction b as [|[k v] r IH]; intros a H; simpl; auto.
+  apply IH. now apply nodup_set.
+Qed.
+
+Lemma set_user_nodup user reset kw : nodup_keys user = true -> nodup_keys (set_user user reset kw) = true.
+Proof. intros H. unfold set_user. apply merge_nodup. destruct reset; auto. Qed.
+
+(* the stored value of a key after a history of calls: the latest call that binds it, looking back no further
+   than the latest reset *)
+Fixpoint latest (key : string) (ops_rev : list (bool * opts)) : option value :=
+  match ops_rev with
+  | [] => None
+  | (reset, kw) :: older => first_some (get key kw) (if reset then None else latest key older)
+  end.
+
+Lemma set_user_seq_snoc ops op u0 : set_user_seq (ops ++ [op]) u0 = set_user (set_user_seq ops u0) (fst op) (snd op).
+Proof. unfold set_user_seq. now rewrite fold_left_app. Qed.
+
+Theorem stored_options_lemma (ops : list (bool * opts)) key :
+  Forall (fun op => nodup_keys (snd op) = true) ops ->
+  get key (set_user_seq ops []) = latest key (rev ops).
+Proof.
+  induction ops as [|op ops IH] using rev_ind; intros H.
+  - reflexivity.
+  - apply Forall_app in H. destruct H as [Hops Hop]. inversion Hop as [|? ? Hkw _]; subst.
+    rewrite set_user_seq_snoc, rev_app_distr. simpl. destruct op as [reset kw]. simpl in *.
+    rewrite set_user_get by exact Hkw. rewrite IH by exact Hops. reflexivity.
+Qed.
+
+Lemma set_user_seq_nodup ops : nodup_keys (set_user_seq ops []) = true.
+Proof.
+  induction ops as [|op ops IH] using rev_ind; [reflexivity|].
+  rewrite set_user_seq_snoc. now apply set_user_nodup.
+Qed.
+
+(* history form of precedence: the option in force = the call's value, else the latest stored value since the last
+   reset, else the default *)
+Theorem precedence_after_history_lemma nb fl d (ops : list (bool * opts)) k key :
+  Forall (fun op => nodup_keys (snd op) = true) ops -> nodup_keys k = true -> is_coupled key = false ->
+  get key (resolve nb fl d (set_user_seq ops []) k)
+  = first_some (get key k) (first_some (latest key (rev ops)) (get key d)).
+Proof.
+  intros Hops Hk Hc. rewrite precedence_lemma; auto using set_user_seq_nodup.
+  unfold prec. now rewrite stored_options_lemma.
+Qed.
